@@ -382,6 +382,10 @@ class KafkaClient(object):
         # make sure we continue to wait for them...
         log.debug("%r: close", self)
         self._closing = True
+        if self.clients is None:
+            # close() has been called before: nothing more to release, wait
+            # for the same disconnects.
+            return self.close_dlist or defer.succeed(None)
         # Close down any clients we have
         brokerclients, self.clients = self.clients, None
         self._close_brokerclients(brokerclients.values())
